@@ -10,32 +10,56 @@ from __future__ import annotations
 import json
 import os
 import random
+import re
 import subprocess
 import sys
 
-from ..common import VERIF, Ctx
+from ..common import COQ, COQ_FLAGS, SRC, VERIF, Ctx, ast_hash, sh, _baseline_hashes
 from .. import gen_C19 as G
-from ..impl_C19 import (Impl, citems, cop, cstore, cstr, from_coq_cfg, from_coq_outcome, from_coq_res,
-                        run_impl, sort_tree, touched_keys)
+from ..impl_C19 import (ENV_PROBE, Impl, Tables, calias, carg, ccfg, cdepr, citems, cop, cprobe, cstmt, cstore, cstr,
+                        from_coq_cfg, from_coq_outcome, from_coq_res, probes, run_impl, sort_tree, touched_keys)
 from ..oracle_C19 import Oracle, op_in_domain, oracle_findings, respell_ops, respelling_findings
 
 LEVEL = "proof"
 
 PRE = """From QV.lib Require Import Prelude.
-From QV.model Require Import C19_Model.
+From QV.model Require Import C19_Model C19_Model2.
 From Coq Require Import String.
-Definition show (keys : list string) (tr : list (list (store * option err))) :=
+Definition probe := (string * option cfg * option cfg)%type.
+Definition show (keys : list string) (ps : list probe) (tr : list (list (store * option err))) :=
   map (map (fun se : store * option err =>
               (Node (conf (fst se)), snd se, map (fun k => C19_Model.get k (conf (fst se))) keys,
-               Z.of_nat (List.length (dflts (fst se)))))) tr.
-Definition go (keys : list string) (ops : list op) (s : store) :=
-  (show keys (trace validate_nogpu ops s), map Node (dflts (run validate_nogpu ops s))).
+               Z.of_nat (List.length (dflts (fst se))),
+               map (fun p : probe => get_full (fst (fst p)) (snd (fst p)) (snd p) (conf (fst se))) ps))) tr.
+Definition go (keys : list string) (ps : list probe) (ops : list op) (s : store) :=
+  (show keys ps (trace validate_nogpu ops s), map Node (dflts (run validate_nogpu ops s))).
+Fixpoint run_t (ts : list stmt) (s : store) : store :=
+  match ts with [] => s | t :: r => run_t r (fst (fst (exec validate_nogpu t s))) end.
+Definition got (keys : list string) (ps : list probe) (ts : list stmt) (s : store) :=
+  (show keys ps (exec_all validate_nogpu ts s), map Node (dflts (run_t ts s))).
 """
 
 
+def is_tree_seq(ops):
+    return any(o[0] in ("block", "reuse") for o in ops)
+
+
+def flat_as_tree(o):
+    """a flat op as a statement tree (used when a sequence mixes both)"""
+    if o[0] == "with":
+        return ["block", False, o[1], o[2], o[3]]
+    if o[0] == "withx":
+        return ["block", True, o[1], o[2], o[3]]
+    return o
+
+
 def seq_expr(ops, keys, init_conf=None, init_dflts=None):
-    return "go [%s] [%s] %s" % ("; ".join(cstr(k) for k in keys), "; ".join(cop(o) for o in ops),
-                                cstore(init_conf or {}, init_dflts or []))
+    ps = "; ".join(cprobe(k, m) for k, m in probes(keys))
+    ks = "; ".join(cstr(k) for k in keys)
+    st = cstore(init_conf or {}, init_dflts or [])
+    if is_tree_seq(ops):
+        return "got [%s] [%s] [%s] %s" % (ks, ps, "; ".join(cstmt(flat_as_tree(o)) for o in ops), st)
+    return "go [%s] [%s] [%s] %s" % (ks, ps, "; ".join(cop(o) for o in ops), st)
 
 
 def model_trace(v):
@@ -43,9 +67,10 @@ def model_trace(v):
     out = []
     for group in tr:
         g = []
-        for tree, oc, gets, nd in group:
+        for tree, oc, gets, nd, gets2 in group:
             g.append({"tree": sort_tree(from_coq_cfg(tree)), "out": from_coq_outcome(oc),
-                      "gets": [from_coq_res(x) for x in gets], "ndflts": nd})
+                      "gets": [from_coq_res(x) for x in gets], "ndflts": nd,
+                      "gets2": [from_coq_res(x) for x in gets2]})
         out.append(g)
     return out, [from_coq_cfg(d) for d in dfl]
 
@@ -61,8 +86,12 @@ def first_difference(ops, keys, itr, idf, mtr, mdf):
                 if a[f] != b[f]:
                     return i, o[0], "op %d %r step %d: %s differs: implementation %r, model %r" % (i, o, j, f, a[f], b[f])
             for k, x, y in zip(keys, a["gets"], b["gets"]):
-                if x != y:
+                if tuple(x) != tuple(y):
                     return i, o[0], "op %d %r step %d: get(%r): implementation %r, model %r" % (i, o, j, k, x, y)
+            for (k, m), x, y in zip(probes(keys), a.get("gets2", []), b["gets2"]):
+                if tuple(x) != tuple(y):
+                    return i, o[0], "op %d %r step %d: get(%r%s): implementation %r, model %r" % (
+                        i, o, j, k, {"d": ", default", "o": ", override_with=5", "n": ", default, override_with=None"}[m], x, y)
     if [sort_tree(d) for d in idf] != [sort_tree(d) for d in mdf]:
         return len(ops) - 1, "upd", "stored defaults differ: implementation %r, model %r" % (idf, mdf)
     return None
@@ -178,12 +207,165 @@ def check_private(ctx: Ctx):
     ctx.log("private pair: %d sequences, %d oracle findings, %d disagreements" % (len(keep), n_or, nd))
 
 
+# ------------------------------------------------------------------------------ statement trees (round 3)
+def tree_stats(ctx, t, depth=1):
+    if t[0] == "block":
+        ctx.dist("nest/block-depth=%d" % depth)
+        ctx.dist("nest/block-%s" % ("propagating" if t[1] else "catching"))
+        for b in t[4]:
+            tree_stats(ctx, b, depth + 1)
+    elif t[0] == "reuse":
+        ctx.dist("nest/reuse-at-depth=%d" % depth)
+        for b in t[3] + t[4]:
+            tree_stats(ctx, b, depth + 1)
+
+
+def check_nest(ctx: Ctx):
+    """with-blocks nested to depth 3 (both exception disciplines per level) and context manager
+    objects entered twice, on a private pair"""
+    from ..oracle_C19 import clean_shape, nest_findings
+    r = ctx.rng
+    cases = [c["ops"] for c in corpus() if c.get("kind") == "nest"]
+    cases += [G.gen_nest_seq(r) for _ in range(ctx.budget(70, 1200))]
+    exprs, keep = [], []
+    for ops in cases:
+        keys = touched_keys(ops)
+        finds = nest_findings(ops)
+        for key, what in finds:
+            def pred(c, key=key):
+                return any(k == key for k, _ in nest_findings(c))
+            small = shrink(ops, pred)
+            w2 = [w for k, w in nest_findings(small) if k == key]
+            ctx.violation(key, (w2 or [what])[0], {"kind": "nest", "ops": small})
+        itr, idf = run_impl(ops, keys)
+        for o, g in zip(ops, itr):
+            ctx.dist("nest/op=%s" % o[0])
+            tree_stats(ctx, o)
+            if o[0] in ("block", "reuse") and clean_shape(o):
+                ctx.dist("nest/clean-tree")
+            for x in g:
+                ctx.dist("nest/outcome=%s" % (x["out"] or "ok"))
+        ctx.count(("nest", json.dumps(ops, sort_keys=True)),
+                  nontrivial=sum(1 for g in itr for x in g if x["out"] is None) >= 3)
+        exprs.append(seq_expr(ops, keys))
+        keep.append((ops, keys, itr, idf, bool(finds)))
+    vals = ctx.coq_eval("nest", PRE, exprs, shard=ctx.budget(10, 40))
+    nd = 0
+    for (ops, keys, itr, idf, bad), v in zip(keep, vals):
+        mtr, mdf = model_trace(v)
+        ctx.cov["traces_validated_against_impl"] += 1
+        d = first_difference(ops, keys, itr, idf, mtr, mdf)
+        if d:
+            nd += 1
+            ctx.cov["disagreements_checked"] += 1
+            ctx.violation("%s-correspondence" % d[1],
+                          "quantem.core.config and the model disagree (statement trees): " + d[2],
+                          {"kind": "nest", "ops": ops}, found_input=bad)
+    if keep:
+        big = max(keep, key=lambda k: len(json.dumps(k[0])))
+        ctx.sample({"kind": "nest", "ops": big[0], "final_tree": big[2][-1][-1]["tree"]})
+    ctx.log("statement trees: %d sequences, %d disagreements" % (len(keep), nd))
+
+
+# ------------------------------------------------------------------------------ the shipped yaml (round 3)
+GEN_DIR = COQ / "gen_proofs"
+
+
+def yaml_phase(ctx: Ctx):
+    """regenerates build/C19/C19_Yaml.v from the CURRENT quantem.yaml, re-runs the fixed proof script
+    on it (coq/gen_proofs/C19_YamlProofs.v, C19_YamlProperties.v) and returns (probe, yaml) as
+    abstract values for the import correspondence"""
+    import hashlib
+    import importlib.util
+    import yaml
+    from ..impl_C19 import to_abstract, tree_wf
+    yf = SRC / "quantem" / "core" / "quantem.yaml"
+    gen_props = GEN_DIR / "C19_YamlProperties.v"
+    gen_proofs = GEN_DIR / "C19_YamlProofs.v"
+    gen_theorems = re.findall(r"(?m)^\s*Theorem\s+(\w+)", gen_props.read_text())
+    problems = []
+
+    def not_checked(why):
+        ctx.cov["obligations"] += len(gen_theorems)
+        for t in gen_theorems:
+            ctx.cov["theorems"][t] = "NOT CHECKED (%s)" % why
+
+    try:
+        parsed = yaml.safe_load(yf.read_text())
+        if not isinstance(parsed, dict):
+            raise ValueError("top-level object is %s" % type(parsed).__name__)
+    except Exception as e:  # noqa
+        problems.append("quantem.yaml cannot be read as a mapping: %r" % e)
+        not_checked("yaml unreadable")
+        ctx.broken_obligation = "; ".join(filter(None, [ctx.broken_obligation] + problems))
+        return None, None
+    y_abs = to_abstract(parsed)
+    probe = {"has_torch": importlib.util.find_spec("torch") is not None,
+             "has_cupy": importlib.util.find_spec("cupy") is not None}
+    h = {"parsed": hashlib.sha256(json.dumps(y_abs, sort_keys=False).encode()).hexdigest()[:16]}
+    ctx.cov["source_ast_hashes"]["core/quantem.yaml"] = h
+    extra = ast_hash(SRC / "quantem" / "core/config.py", ["collect_env", "collect_yaml", "interpret_value", "_load_config_file"])
+    ctx.cov["source_ast_hashes"]["core/config.py (round 3)"] = extra
+    base = _baseline_hashes().get(ctx.prop, {})
+    for rel, cur in (("core/quantem.yaml", h), ("core/config.py (round 3)", extra)):
+        b = base.get(rel)
+        if b is not None and b != cur:
+            ctx.escalated = True
+            ctx.cov.setdefault("drift", {})[rel] = sorted(k for k in cur if b.get(k) != cur[k])
+            ctx.log("drift guard: %s changed -> quick budget escalated" % rel)
+    ctx.cov["yaml"] = {"keys": len(list(G_leaf_paths(y_abs))), "well_formed": tree_wf(y_abs)}
+    gen = ctx.dir / "C19_Yaml.v"
+    gen.write_text("(* generated by harness/props/C19.py from %s on every run *)\n"
+                   "From QV.lib Require Import Prelude.\nFrom QV.model Require Import C19_Model.\n"
+                   "From Coq Require Import String.\n"
+                   "Definition probe_defaults : items := %s.\nDefinition yaml_defaults : items := %s.\n"
+                   % (yf, citems(probe), citems(y_abs)))
+    for stale in ("C19_Yaml.vo", "C19_YamlProofs.vo", "C19_YamlProperties.vo"):
+        if (ctx.dir / stale).exists():
+            (ctx.dir / stale).unlink()
+    flags = COQ_FLAGS + ["-Q", str(ctx.dir), "Gen19"]
+    bad = ctx.static_scan([gen, gen_proofs, gen_props])
+    if bad:
+        problems.append("forbidden declarations: %s" % bad[:5])
+    rc, out = sh(["timeout", "300", "coqc"] + flags + [str(gen)], cwd=ctx.dir, timeout=330)
+    if rc != 0:
+        problems.append("generated C19_Yaml.v does not compile:\n" + "\n".join(out.strip().splitlines()[-10:]))
+        not_checked("generated file does not compile")
+    else:
+        rc, out = sh(["timeout", "300", "coqc"] + flags + ["-o", str(ctx.dir / "C19_YamlProofs.vo"), str(gen_proofs)],
+                     cwd=ctx.dir, timeout=330)
+        if rc != 0:
+            problems.append("the current quantem.yaml no longer satisfies the fixed proof script C19_YamlProofs.v "
+                            "(its mappings must spell every key once and purely, import must not raise, the device must "
+                            "be the cpu, refresh must reproduce the import):\n" + "\n".join(out.strip().splitlines()[-12:]))
+            not_checked("fixed proof script fails on the current yaml")
+        else:
+            cmd1 = ctx.cov["checker_cmd"]
+            if not ctx.require_proofs(props_name="C19_YamlProperties", props_path=gen_props,
+                                      extra_flags=["-Q", str(ctx.dir), "Gen19"], make_targets=[]):
+                problems += ctx._proof_problems
+            ctx.cov["checker_cmd"] = (cmd1 + "  ;  [yaml -> build/C19/C19_Yaml.v] coqc %s C19_Yaml.v && coqc ... -o "
+                                      "build/C19/C19_YamlProofs.vo coq/gen_proofs/C19_YamlProofs.v && coqc ... "
+                                      "coq/gen_proofs/C19_YamlProperties.v" % " ".join(flags))
+    if problems:
+        ctx.broken_obligation = "; ".join(filter(None, [ctx.broken_obligation] + problems))
+        ctx.log("PROOF OBLIGATION BROKEN (yaml):", ctx.broken_obligation[:2000])
+    return probe, y_abs
+
+
+def G_leaf_paths(t):
+    from ..impl_C19 import leaf_paths
+    return leaf_paths(t)
+
+
 # ------------------------------------------------------------------------------ update / merge called directly
 def direct_impl(c):
     """(outcome, resulting tree) of the real helper"""
     import copy
     from quantem.core import config as C
     from ..impl_C19 import classify, to_abstract
+    if c[0] in ("ckv", "set_t", "update_t", "collect_env"):
+        return direct_impl3(c)
     try:
         if c[0] == "merge":
             res = C.merge(*copy.deepcopy(c[1]))
@@ -198,7 +380,56 @@ def direct_impl(c):
         return (classify(e), sort_tree(to_abstract(res)) if c[0] == "update" else None)
 
 
+def direct_impl3(c):
+    """round 3: check_key_val / set / update with the deprecations and aliases tables installed;
+    collect_env on a given environment"""
+    import copy
+    from quantem.core import config as C
+    from ..impl_C19 import classify, to_abstract
+    if c[0] == "collect_env":
+        try:
+            return (None, sort_tree(to_abstract(C.collect_env({n: txt for n, txt, _ in c[1]}))))
+        except Exception as e:  # noqa
+            return (classify(e), None)
+    depr, alias = c[1], c[2]
+    res = None
+    with Tables(depr, alias):
+        try:
+            if c[0] == "ckv":
+                k, v = C.check_key_val(c[3], copy.deepcopy(c[4]))
+                if k != c[3]:
+                    return ("KeyRenamed:%s" % k, None)
+                return (None, {"val": sort_tree(to_abstract(v))})
+            if c[0] == "set_t":
+                res = copy.deepcopy(c[5])
+                arg = copy.deepcopy(c[3])
+                if arg is None:
+                    C.set(config=res, **{k: copy.deepcopy(v) for k, v in c[4]})
+                else:
+                    C.set(arg, config=res, **{k: copy.deepcopy(v) for k, v in c[4]})
+            else:
+                res = copy.deepcopy(c[3])
+                C.update(res, copy.deepcopy(c[4]), priority=c[5], defaults=copy.deepcopy(c[6]))
+            return (None, sort_tree(to_abstract(res)))
+        except Exception as e:  # noqa
+            return (classify(e), sort_tree(to_abstract(res)) if res is not None else None)
+
+
 def direct_expr(c):
+    wrap = "(fun r => (Node (fst r), snd r))"
+    if c[0] == "collect_env":
+        return "%s (collect_env validate_nogpu %s)" % (wrap, citems([(n, v) for n, _, v in c[1]]))
+    if c[0] == "ckv":
+        return ("(fun r => match r with inl e => (Node [], Some e) | inr v => (Node [(\"val\"%%string, v)], None) end) "
+                "(check_key_val_t validate_nogpu %s %s %s %s)" % (cdepr(c[1]), calias(c[2]), cstr(c[3]), ccfg(c[4])))
+    if c[0] == "set_t":
+        return "(fun r => (Node (fst (fst r)), snd r)) (set_call_t validate_nogpu %s %s %s %s %s)" % (
+            cdepr(c[1]), calias(c[2]), carg(c[3]), citems(c[4]), citems(c[5]))
+    if c[0] == "update_t":
+        prio = {"old": "POld", "new": "PNew", "new-defaults": "PNewDefaults"}[c[5]]
+        dv = "None" if c[6] is None else "(Some (Node %s))" % citems(c[6])
+        return "%s (update_items_t validate_nogpu %s %s %s %s %s %s)" % (
+            wrap, cdepr(c[1]), calias(c[2]), prio, citems(c[4]), citems(c[3]), dv)
     if c[0] == "merge":
         return "(fun r => (Node (fst r), snd r)) (merge validate_nogpu [%s])" % "; ".join(citems(d) for d in c[1])
     prio = {"old": "POld", "new": "PNew", "new-defaults": "PNewDefaults"}[c[3]]
@@ -213,6 +444,15 @@ def direct_findings(c, out, tree):
     replaces exactly the values still equal to the given defaults; nothing else is touched"""
     from ..oracle_C19 import ref_get, ref_merge
     from ..impl_C19 import leaf_paths, npath, comparable, norm_tree
+    if c[0] == "ckv":
+        # what holds with non-empty tables: a removed key is refused; the key itself is never renamed
+        if c[3] in c[1] and not c[1][c[3]] and out != "ValueErr":
+            return [("tables-removed-key-accepted", "check_key_val(%r) with deprecations %r gives %r / %r" % (c[3], c[1], out, tree))]
+        if c[3] == "device" and out is None and tree["val"] != "cpu":
+            return [("stored-device-invalid", "check_key_val('device', %r) with aliases %r gives %r on a cpu-only host" % (c[4], c[2], tree))]
+        return []
+    if c[0] in ("set_t", "update_t", "collect_env"):
+        return []
     if out is not None:
         return []
     if c[0] == "merge":
@@ -266,13 +506,21 @@ def check_direct(ctx: Ctx):
     r = ctx.rng
     cases = [c["case"] for c in corpus() if c.get("kind") == "direct"]
     cases += [G.gen_direct(r) for _ in range(ctx.budget(160, 2400))]
+    for _ in range(ctx.budget(120, 1500)):
+        c = G.gen_tables_case(r)
+        c[2] = {k: [[a, b] for a, b in {a: b for a, b in tbl}.items()] for k, tbl in c[2].items()}   # as the dict holds it
+        cases.append(c)
+    cases += [G.gen_env_case(r) for _ in range(ctx.budget(40, 500))]
     exprs, keep = [], []
     for c in cases:
         out, tree = direct_impl(c)
         finds = direct_findings(c, out, tree)
         for key, what in finds:
             ctx.violation(key, what, {"kind": "direct", "case": c})
-        ctx.dist("direct/%s" % (c[0] if c[0] == "merge" else "update-" + c[3]))
+        ctx.dist("direct/%s" % (c[0] if c[0] != "update" else "update-" + c[3]))
+        if c[0] in ("ckv", "set_t", "update_t"):
+            ctx.dist("direct/tables=%s" % ("empty" if not (c[1] or c[2]) else "+".join(
+                (["deprecations"] if c[1] else []) + (["aliases"] if c[2] else []))))
         ctx.dist("direct/outcome=%s" % (out or "ok"))
         ctx.count(("direct", json.dumps(c, sort_keys=True)), nontrivial=out is None and bool(tree))
         exprs.append(direct_expr(c))
@@ -298,6 +546,7 @@ def globals_child():
     binding, _initialize and the shipped yaml are exercised)"""
     import copy
     req = json.loads(sys.stdin.read())
+    os.environ.update(ENV_PROBE)          # collect() must not read these (collect_env is switched off)
     from quantem.core import config as C
     from ..impl_C19 import to_abstract
     im = Impl(use_globals=True)
@@ -313,8 +562,12 @@ def globals_child():
         reset()
         init_conf = to_abstract(C.config)
         keys = touched_keys(ops)
-        orc = Oracle(impl=im)
-        finds = orc.run(ops)
+        if any(o[0] in ("block", "reuse") for o in ops):
+            from ..oracle_C19 import nest_findings
+            finds = nest_findings(ops, impl=im)
+        else:
+            orc = Oracle(impl=im)
+            finds = orc.run(ops)
         reset()
         itr, idf = run_impl(ops, keys, impl=im)
         # set_device / get_device wrappers
@@ -331,10 +584,11 @@ def globals_child():
     sys.stdout.write("\n@@C19@@" + json.dumps(out))
 
 
-def check_globals(ctx: Ctx):
+def check_globals(ctx: Ctx, probe=None, y_abs=None):
     r = ctx.rng
     seqs = [c["ops"] for c in corpus() if c.get("kind") == "globals"]
     seqs += [G.gen_globals_seq(r) for _ in range(ctx.budget(30, 400))]
+    seqs += [G.gen_globals_nest_seq(r) for _ in range(ctx.budget(8, 120))]
     env = dict(os.environ)
     p = subprocess.run([sys.executable, "-W", "ignore", "-c",
                         "from harness.props.C19 import globals_child; globals_child()"],
@@ -347,7 +601,15 @@ def check_globals(ctx: Ctx):
         ctx.violation("set-device-wrapper", "set_device('cpu'); get_device(), device() gives %r" % (res["device_fn"],),
                       {"kind": "globals", "ops": []})
     d0 = res["init_dflts"]
-    exprs = ["Node (conf (fst (refresh validate_nogpu [] %s)))" % cstore({}, d0)]
+    if y_abs is not None:
+        # the model's initial state comes from the FILE (parsed on this run), not from the module
+        if [sort_tree(d) for d in d0] != [sort_tree(probe), sort_tree(y_abs)]:
+            ctx.violation("initialize-correspondence",
+                          "the defaults stack after import is not [probe defaults, parsed quantem.yaml]: implementation %r, "
+                          "expected %r" % (d0, [probe, y_abs]), {"kind": "globals", "ops": []}, found_input=False)
+        exprs = ["Node (conf (fst (import_store validate_nogpu %s %s)))" % (citems(probe), citems(y_abs))]
+    else:
+        exprs = ["Node (conf (fst (refresh validate_nogpu [] %s)))" % cstore({}, d0)]
     for s in res["seqs"]:
         for key, what in s["findings"]:
             ctx.violation(key, "[module globals] " + what, {"kind": "globals", "ops": s["ops"]})
@@ -366,7 +628,8 @@ def check_globals(ctx: Ctx):
     for s, v in zip(res["seqs"], vals[1:]):
         mtr, mdf = model_trace(v)
         keys = s["keys"]
-        itr = [[{"tree": x["tree"], "out": x["out"], "gets": [tuple(g) for g in x["gets"]], "ndflts": x["ndflts"]}
+        itr = [[{"tree": x["tree"], "out": x["out"], "gets": [tuple(g) for g in x["gets"]], "ndflts": x["ndflts"],
+                 "gets2": [tuple(g) for g in x["gets2"]]}
                 for x in g] for g in s["trace"]]
         ctx.cov["traces_validated_against_impl"] += 1
         d = first_difference(s["ops"], keys, itr, s["dflts"], mtr, mdf)
@@ -411,9 +674,11 @@ def run(ctx: Ctx):
         "harness/props/C19.py, harness/impl_C19.py, harness/gen_C19.py, harness/oracle_C19.py, harness/common.py",
     ]
     ctx.proofs_or_violation()
+    probe, y_abs = yaml_phase(ctx)
     check_private(ctx)
+    check_nest(ctx)
     check_direct(ctx)
-    check_globals(ctx)
+    check_globals(ctx, probe, y_abs)
 
 
 def replay(ctx: Ctx, path):
@@ -447,6 +712,12 @@ def replay(ctx: Ctx, path):
         finds = [tuple(f) for f in s["findings"]]
         keys, itr, idf, ic, d0 = s["keys"], s["trace"], s["dflts"], s["init_conf"], res["init_dflts"]
         itr = [[dict(x, gets=[tuple(g) for g in x["gets"]]) for x in g] for g in itr]
+    elif rp.get("kind") == "nest" or is_tree_seq(ops):
+        from ..oracle_C19 import nest_findings
+        finds = nest_findings(ops)
+        keys = touched_keys(ops)
+        itr, idf = run_impl(ops, keys)
+        ic, d0 = None, None
     else:
         finds = oracle_findings(ops)
         if rp.get("ops2"):
